@@ -14,6 +14,11 @@ CLI_NOTE = ("CLI correspondence: seeded command histories on real temporary proj
 POOL_NOTE = ("The theorems are about the labelled transition system GwfModel/Pool.lean (labels = the events observable on the real Scheduler). "
              "That asyncio realises only enabled transitions is VALIDATED by trace acceptance on the explored schedules (virtual clock, fake subprocess, instrumented semaphore/state table; fine-grained settling so cancels hit every await point), not proved. ")
 CHECKS = {
+ "C09": dict(
+   text="Theorems over the model of an interrupted run (plan of any length, interruption after any number k of accepted-and-recorded submissions): the i-th recorded submission (i<k) is on disk under its target's name with the id the scheduler returned, whatever happened later (no_forgotten_job; uses that each target is submitted at most once, C02.submitted_once); a hard kill leaves the spec hashes exactly as they were, an exception saves hashes only for accepted targets (hash recorded only if accepted); no workflow file is touched; a recorded job that is still pending/running makes its target submitted/running, and such targets are never submitted (recorded_live_job_is_in_flight + in_flight_not_submitted, with C02.never_resubmits_in_flight); prerequisites of the remaining targets point at the recorded ids (C07.prereq_ids_exact). State files are replaced atomically, so the disk always holds one of the complete maps of the model.",
+   note="Not claimed (the theorem's exclusion): the window between the scheduler accepting a job and gwf having recorded its id. os.replace atomicity is assumed. The correspondence runs the real gwf as a SUBPROCESS with, at every position k, failing sbatch/qsub/bsub (exit 1, 'error:' on stderr, garbage output), SIGKILL of gwf before/after the scheduler accepted, kills before/after/in the middle of every state-file write (harness-side launcher patching os.replace/json.dump, no source hook), failing queue/accounting queries with live jobs; then checks readability, recorded ids vs the model, hashes, and the next run.",
+   technique="Lean 4 proof (prefix/fold lemmas over the world model) + fault and crash injection at every scheduler command and state-file write against subprocess runs",
+   design="§6-C09"),
  "C10": dict(
    text="Theorems: the quoting theorem — for EVERY string wd, the script's cd line splits under POSIX quoting rules into exactly ['cd', wd] (cd_roundtrip, via a six-mode word-splitter model and shlex.quote; the unquoted form has a kernel-checked counter-example); option precedence: a later source that defines an option wins, a source that does not define it leaves the earlier value (update_defined / update_undefined over backend default < workflow default < template < per-target); resolved options contain only options the backend knows, none that resolved to None, and no option twice (resolved_options); the dropped names are exactly the unknown ones; in all three script generators the spec (plus at most a final newline) is the verbatim tail after cd and set -e (spec_is_tail_*); log directive paths are <project>/.gwf/logs/<target>.stdout|.stderr; clean_logs removes only files whose stem is not a current target name (cleanLogs_safe).",
    note="bash's execution of the body is run, not modelled (oracle: bash -e on the bare spec); scheduler-side redirection of stdout/stderr to the log paths is not emulated, `gwf logs` is covered by the path theorem only. Project directories with whitespace are outside the generator (directive values are unquoted). SGE per-core memory: kernel-checked instances of the floor conversion. Script text from the real `gwf run` (fake sbatch/qsub/bsub record stdin) is compared with the model byte for byte.",
